@@ -5,8 +5,40 @@ from ..harness import run_property
 from .. import step, outer, runstart
 
 
+def body_ratio(E, n, with_h, scaling):
+    """Controller.calculate_ratio: a positive ratio (the licence to overwrite ANY point, the incumbent included, with the trial point)
+    is only reported when the trial point is really better than the incumbent in sum(r^2)+h"""
+    from ..state import mk_controller, objective
+    np = E.np
+    C, M, ghost, params = mk_controller(E, n, 1, n + 1, n + 1, with_h=with_h, with_save=False, objfun=None, scaling=scaling, kopt_minimal=False)
+    d = E.vec('d', n)
+    gopt = E.vec('g', n)
+    H = E.mat('H', n, n)
+    for i in range(n):
+        for j in range(i):
+            H[i, j] = H[j, i]
+    r = E.vec('rt', 1)
+    rl = np.zeros((1, 1))
+    rl[0, :] = r
+    x = M.xopt(abs_coordinates=True)
+    trial = objective(E, M, r, x + d)
+    old = M.objopt()
+    ratio, exit_info = C.calculate_ratio(x, E.int('iter', 0, None), rl, d, gopt, H)
+    if exit_info is None:
+        E.prove(E.implies(ratio > 0, trial < old), 'C04:ratio:positive-ratio-only-for-a-better-trial-point')
+    E.reach('ratio:checked')
+
+
 def harnesses(tier, seed):
-    return step.step_harnesses(tier, seed, 'C04') + step.action_harnesses(tier, seed, 'C04') + outer.outer_harnesses(tier, seed, 'C04') + runstart.start_harnesses(tier, seed, 'C04')
+    from ..harness import Harness
+    from .. import core
+    hs = []
+    for (n, with_h, scaling) in ([(1, False, False), (1, True, False), (1, True, True)] + ([] if tier == 'quick' else [(2, True, True), (2, False, False)])):
+        hs.append(Harness("ratio[n=%d,h=%d,scaling=%d]" % (n, with_h, scaling), 'dfverif.checks.c04', 'body_ratio', params=dict(n=n, with_h=with_h, scaling=scaling),
+                          cfg=core.Cfg(qtimeout_ms=20000, uflin=True), functions=['controller.Controller.calculate_ratio', 'util.model_value'],
+                          bounds="n=%d, m=1, one sample; model gradient / Hessian / step / trial residual symbolic; regulariser family lam*sum|x_i-c_i|" % n,
+                          assumptions=["products, quotients: uninterpreted with sign axioms (counterexamples re-checked exactly and replayed)"], home='C04', nproc=1, max_replays=2))
+    return hs + step.step_harnesses(tier, seed, 'C04') + step.action_harnesses(tier, seed, 'C04') + outer.outer_harnesses(tier, seed, 'C04') + runstart.start_harnesses(tier, seed, 'C04')
 
 
 def run(tier, seed):
